@@ -6,6 +6,8 @@ Unit 1  `LayerInfoBlock` (Lr16 / Lr32): Model/PayloadLayerInfo.lean, Lemmas/Payl
 Unit 2  the fixed-layout tagged-block payloads of psd/base.py, psd/tagged_blocks.py, psd/color.py:
         Model/PayloadBase.lean (`PCodec`), Model/PayloadSimple.lean, Lemmas/PayloadBase.lean, Lemmas/PayloadSimple.lean.
 
+Unit 3  psd/effects_layer.py (`lrFX`): Model/PayloadEffects.lean, Lemmas/PayloadEffects.lean.
+
 Reading guide (units 2-5)
 * every class is a `PCodec`: `c.enc v` is `v.tobytes(...)` (or `struct.error`), `c.dec` the reader at a cursor,
   `c.consumed v` the number of written bytes the reader consumes (some writers end with `write_padding`; no payload
@@ -30,6 +32,7 @@ Reading guide (unit 1)
 -/
 import PsdVerif.Lemmas.PayloadLayerInfo2
 import PsdVerif.Lemmas.PayloadSimple
+import PsdVerif.Lemmas.PayloadEffects
 import PsdVerif.Lemmas.PayloadSamples
 import PsdVerif.Model.PayloadTables
 
@@ -503,5 +506,116 @@ theorem unit2_registry_tied : Generated.Payload.unit2Registry = Tables.unit2Regi
 theorem unit2_calls_tied : Generated.Payload.unit2Calls = Tables.unit2Calls := by decide +kernel
 
 end unit2
+
+/-! ## unit 3: effects_layer.py -/
+
+section unit3
+open PCodec
+
+theorem common_state_info_roundtrip : RoundTrip CommonStateInfo.codec := roundTrip_of CommonStateInfo.rt
+theorem common_state_info_rewrite_identical : RewriteIdentical CommonStateInfo.codec := rewriteIdentical_of CommonStateInfo.rt.atEnd
+theorem common_state_info_written_is_length : WrittenIsLength CommonStateInfo.codec := writtenIsLength_of CommonStateInfo.count
+
+/-- drop shadow and inner shadow: no dependence on the version (the native colour is always stored) -/
+theorem shadow_info_roundtrip : RoundTrip ShadowInfo.codec := roundTrip_of ShadowInfo.rt
+theorem shadow_info_rewrite_identical : RewriteIdentical ShadowInfo.codec := rewriteIdentical_of ShadowInfo.rt.atEnd
+theorem shadow_info_written_is_length : WrittenIsLength ShadowInfo.codec := writtenIsLength_of ShadowInfo.count
+
+/-- the native colour is present exactly when `version >= 2` (`WF`): then writer (`if self.native_color`) and reader
+(`if version >= 2`) agree -/
+theorem outer_glow_info_roundtrip : RoundTrip OuterGlowInfo.codec := roundTrip_of OuterGlowInfo.rt
+theorem outer_glow_info_rewrite_identical : RewriteIdentical OuterGlowInfo.codec := rewriteIdentical_of OuterGlowInfo.rt.atEnd
+theorem outer_glow_info_written_is_length : WrittenIsLength OuterGlowInfo.codec := writtenIsLength_of OuterGlowInfo.count
+
+theorem inner_glow_info_roundtrip : RoundTrip InnerGlowInfo.codec := roundTrip_of InnerGlowInfo.rt
+theorem inner_glow_info_rewrite_identical : RewriteIdentical InnerGlowInfo.codec := rewriteIdentical_of InnerGlowInfo.rt.atEnd
+theorem inner_glow_info_written_is_length : WrittenIsLength InnerGlowInfo.codec := writtenIsLength_of InnerGlowInfo.count
+
+/-- every version: below 2 without, from 2 on with the two real colours (full strength after repo commits 3d75013 - what
+the writer stores - and 077ef93 - when the reader takes them) -/
+theorem bevel_info_roundtrip : RoundTrip BevelInfo.codec := roundTrip_of BevelInfo.rt
+theorem bevel_info_rewrite_identical : RewriteIdentical BevelInfo.codec := rewriteIdentical_of BevelInfo.rt.atEnd
+theorem bevel_info_written_is_length : WrittenIsLength BevelInfo.codec := writtenIsLength_of BevelInfo.count
+
+theorem solid_fill_info_roundtrip : RoundTrip SolidFillInfo.codec := roundTrip_of SolidFillInfo.rt
+theorem solid_fill_info_rewrite_identical : RewriteIdentical SolidFillInfo.codec := rewriteIdentical_of SolidFillInfo.rt.atEnd
+theorem solid_fill_info_written_is_length : WrittenIsLength SolidFillInfo.codec := writtenIsLength_of SolidFillInfo.count
+
+/-- the dict of effect infos: every item in its own length block, read by the class its key selects; the reader stops
+before the final `write_padding(fp, written, 4)` -/
+theorem effects_layer_roundtrip : RoundTrip EffectsLayer.codec := roundTrip_of EffectsLayer.rt
+theorem effects_layer_rewrite_identical : RewriteIdentical EffectsLayer.codec := rewriteIdentical_of EffectsLayer.rt.atEnd
+theorem effects_layer_written_is_length : WrittenIsLength EffectsLayer.codec := writtenIsLength_of EffectsLayer.count
+theorem tagged_block_effects_layer : TaggedBlockPayload EffectsLayer.codec := taggedBlockPayload_of EffectsLayer.rt.atEnd
+
+theorem effects_layer_filler (x : EffectsLayer) :
+    EffectsLayer.codec.encT x = (EffectsLayer.codec.encT x).take (EffectsLayer.codec.consumed x) ++
+      zeros (padAmount (EffectsLayer.codec.consumed x) 4) := by
+  simp only [EffectsLayer.codec, EffectsLayer.encT, List.take_left']
+
+/-! ### non-vacuity -/
+
+theorem unit3_samples_wf :
+    EffectsLayer.codec.WF Samples.effects ∧ EffectsLayer.codec.Fits Samples.effects ∧
+    EffectsLayer.codec.WF Samples.effectsOld ∧ EffectsLayer.codec.Fits Samples.effectsOld ∧
+    BevelInfo.codec.WF Samples.bevel3 ∧ BevelInfo.codec.Fits Samples.bevel3 := by decide +kernel
+
+example : ∃ bs, EffectsLayer.codec.enc Samples.effects = .ok bs ∧ bs.length % 4 = 0 ∧
+    EffectsLayer.codec.dec bs 0 = .ok (Samples.effects, Samples.effects.bodyT.length) := by
+  have henc : EffectsLayer.codec.enc Samples.effects = .ok (EffectsLayer.encT Samples.effects) := if_pos unit3_samples_wf.2.1
+  refine ⟨_, henc, by decide +kernel, ?_⟩
+  have hc : EffectsLayer.codec.consumed Samples.effects = Samples.effects.bodyT.length := rfl
+  simpa [hc] using effects_layer_roundtrip _ unit3_samples_wf.1 _ [] [] henc
+
+/-- a bevel effect of version 3 survives (it did not before 077ef93: see `bevel_version3_lost_real_colours_before_fix`) -/
+example : ∃ bs, BevelInfo.codec.enc Samples.bevel3 = .ok bs ∧ bs.length = 78 ∧ BevelInfo.codec.dec bs 0 = .ok (Samples.bevel3, 78) := by
+  have henc : BevelInfo.codec.enc Samples.bevel3 = .ok (BevelInfo.encT Samples.bevel3) := if_pos unit3_samples_wf.2.2.2.2.2
+  refine ⟨_, henc, by decide +kernel, ?_⟩
+  have hc : BevelInfo.codec.consumed Samples.bevel3 = 78 := by decide +kernel
+  simpa [hc] using bevel_info_roundtrip _ unit3_samples_wf.2.2.2.2.1 _ [] [] henc
+
+/-! ### the defect repaired by 077ef93, on the reader as it was -/
+
+/-- with the reader's old test `version == 2` a bevel effect of version 3 was re-read without the real colours the writer
+had stored (and the re-read object could not be written again: `None.write`) -/
+theorem bevel_version3_lost_real_colours_before_fix :
+    BevelInfo.codec.enc Samples.bevel3 = .ok (BevelInfo.encT Samples.bevel3) ∧
+      Samples.bevelDecOld (BevelInfo.encT Samples.bevel3) 0 = .ok (Samples.bevel 3 none, 58) ∧
+      Samples.bevel 3 none ≠ Samples.bevel3 ∧ ¬ BevelInfo.codec.Fits (Samples.bevel 3 none) := by decide +kernel
+
+/-! ### points excluded by `WF` (iii): a trailer that does not match the version -/
+
+/-- `OuterGlowInfo(version=2)` without a native colour: nothing is written for it, the reader runs out of data -/
+theorem outer_glow_v2_without_native_not_roundtrip :
+    ∃ bs, OuterGlowInfo.codec.enc Samples.outerGlow2NoNative = .ok bs ∧ OuterGlowInfo.codec.dec bs 0 = .error .ioError :=
+  ⟨OuterGlowInfo.encT Samples.outerGlow2NoNative, by decide +kernel, by decide +kernel⟩
+
+/-- `OuterGlowInfo(version=0, native_color=c)`: the colour is written (`if self.native_color`) and not read -/
+theorem outer_glow_v0_with_native_not_roundtrip :
+    ∃ bs, OuterGlowInfo.codec.enc Samples.outerGlow0Native = .ok bs ∧
+      OuterGlowInfo.codec.dec bs 0 = .ok (Samples.outerGlow0, bs.length - 10) :=
+  ⟨OuterGlowInfo.encT Samples.outerGlow0Native, by decide +kernel, by decide +kernel⟩
+
+/-- `InnerGlowInfo(version=0, invert=1, native_color=c)` / `BevelInfo(version=0, real colours)`: the trailer is not written -/
+theorem trailer_below_version2_not_stored :
+    InnerGlowInfo.codec.enc Samples.innerGlow0Trailer = InnerGlowInfo.codec.enc Samples.innerGlow0 ∧
+      BevelInfo.codec.enc Samples.bevel0Real = BevelInfo.codec.enc Samples.bevel0 := by decide +kernel
+
+/-! ### ties -/
+
+/-- `EffectsLayer.EFFECT_TYPES` is the model's key → class table, and every `EffectOSType` member has a class -/
+theorem effect_types_tied :
+    Generated.Payload.effectTypes = effectTypes.map (fun kc => (kc.1, kc.2.name)) ∧
+      Generated.Payload.effectTypes = Tables.effectTypes ∧
+      (∀ k ∈ Generated.Payload.effectKeys, (classOfKey k).isSome) ∧ Generated.Payload.effectKeys = Tables.effectKeys := by
+  decide +kernel
+
+/-- the tests that decide the version-dependent trailers, as written in the source -/
+theorem effect_conditions_tied : Generated.Payload.effectConditions = Tables.effectConditions := by decide +kernel
+
+theorem unit3_registry_tied : Generated.Payload.unit3Registry = Tables.unit3Registry := by decide +kernel
+theorem unit3_calls_tied : Generated.Payload.unit3Calls = Tables.unit3Calls := by decide +kernel
+
+end unit3
 
 end PsdVerif.C01Payload
